@@ -119,8 +119,7 @@ Definition jv_strict_eq (a b : jv) : option bool :=
   | JN x, JN y => Some (Z.eqb x y)
   | JS x, JS y => Some (beqb x y)
   | JB x, JB y => Some (Bool.eqb x y)
-  | (JUndef | JNul), (JUndef | JNul) => Some true
-  | _, _ => None                      (* mixed types and references: outside the property's domain *)
+  | _, _ => None                      (* mixed types, null/undefined and references: outside the property's domain *)
   end.
 
 Fixpoint bytes_lt (a b : bytes) : bool :=
